@@ -6,7 +6,8 @@ From Coq Require Import ZArith Bool List Lia.
 From SV Require Import Extracted.IntC Int.Model Int.Proofs Rs.Prelude.
 From SV Require Core.Slice Eq.Model.
 From SV Require Import Extracted.RsInline Extracted.RsInt Extracted.RsIndex Extracted.RsConv Extracted.RsMix
-  Extracted.RsHash.
+  Extracted.RsHash Extracted.RsRange.
+From SV Require Core.Values.
 Open Scope Z_scope.
 
 Lemma in_inline_i32 z : in_inline z = true -> in_i32 z = true.
@@ -405,6 +406,121 @@ Qed.
 
 Theorem rs_promote_eq h : rs_promote h = rs_mix_u32 h.
 Proof. reflexivity. Qed.
+
+(* ---- values/types/range/range_type.rs ------------------------------------------------------------ *)
+Lemma ltbZ (a b : Z) : rs_ltb a b = (a <? b).
+Proof. unfold rs_ltb, rs_cmpz, rsord_Z, Z.ltb. destruct (a ?= b); reflexivity. Qed.
+Lemma gtbZ (a b : Z) : rs_gtb a b = (b <? a).
+Proof. unfold rs_gtb, rs_cmpz, rsord_Z. rewrite Z.ltb_antisym, Z.leb_compare. destruct (a ?= b); reflexivity. Qed.
+Lemma gebZ (a b : Z) : rs_geb a b = (b <=? a).
+Proof. unfold rs_geb, rs_cmpz, rsord_Z. rewrite Z.leb_antisym. unfold Z.ltb. destruct (a ?= b); reflexivity. Qed.
+Lemma lebZ (a b : Z) : rs_leb a b = (a <=? b).
+Proof. unfold rs_leb, rs_cmpz, rsord_Z, Z.leb. destruct (a ?= b); reflexivity. Qed.
+
+Ltac normZ := repeat match goal with
+  | |- context [@rs_ltb Z _ ?a ?b] => rewrite (ltbZ a b)
+  | |- context [@rs_gtb Z _ ?a ?b] => rewrite (gtbZ a b)
+  | |- context [@rs_geb Z _ ?a ?b] => rewrite (gebZ a b)
+  | |- context [@rs_leb Z _ ?a ?b] => rewrite (lebZ a b)
+  end.
+
+Definition i32b (z : Z) : Prop := -2147483648 <= z <= 2147483647.
+
+Lemma cast_i64_small z : i32b z -> cast_i64 z = z.
+Proof. unfold i32b, cast_i64, wrap_signed. intros H.
+  change (2 ^ (64 - 1)) with 9223372036854775808. change (2 ^ 64) with 18446744073709551616.
+  rewrite Z.mod_small by lia. lia. Qed.
+Lemma cast_u64_small z : 0 <= z < 4294967296 -> cast_u64 z = z.
+Proof. unfold cast_u64, wrap_unsigned. intros H. change (2 ^ 64) with 18446744073709551616.
+  apply Z.mod_small. lia. Qed.
+
+Lemma range_len_core d s :
+  0 < d < 4294967296 -> 0 < s < 4294967296 ->
+  (if 0 <=? cast_i32 (Z.quot (d - 1) s + 1)
+   then ROk (cast_i32 (Z.quot (d - 1) s + 1)) else RErr E_IntegerOverflow) =
+  (if (d + s - 1) / s <=? 2147483647 then ROk ((d + s - 1) / s) else RErr E_IntegerOverflow).
+Proof.
+  intros Hd Hs.
+  rewrite Z.quot_div_nonneg by lia.
+  assert (E : (d + s - 1) / s = (d - 1) / s + 1).
+  { replace (d + s - 1) with (d - 1 + 1 * s) by lia. rewrite Z.div_add by lia. reflexivity. }
+  rewrite E. set (n := (d - 1) / s + 1).
+  assert (Hn : 1 <= n < 4294967296).
+  { unfold n. assert (0 <= (d - 1) / s) by (apply Z.div_pos; lia).
+    assert ((d - 1) / s <= d - 1) by (apply Z.div_le_upper_bound; nia). lia. }
+  unfold cast_i32, wrap_signed. change (2 ^ (32 - 1)) with 2147483648. change (2 ^ 32) with 4294967296.
+  destruct (Z.leb_spec n 2147483647) as [H|H].
+  - rewrite Z.mod_small by lia. replace (n + 2147483648 - 2147483648) with n by lia.
+    destruct (Z.leb_spec 0 n); [reflexivity|lia].
+  - replace (n + 2147483648) with (n - 2147483648 + 1 * 4294967296) by lia.
+    rewrite Z.mod_add by lia. rewrite Z.mod_small by lia.
+    destruct (Z.leb_spec 0 (n - 2147483648 - 2147483648)); [lia|reflexivity].
+Qed.
+
+Theorem rs_range_length_eq lo hi st :
+  i32b lo -> i32b hi -> i32b st -> st <> 0 ->
+  rs_range_length {| f_start := lo; f_stop := hi; f_step := st |} =
+  (let n := SV.Core.Values.range_len lo hi st in if n <=? 2147483647 then ROk n else RErr E_IntegerOverflow).
+Proof.
+  unfold i32b. intros Hlo Hhi Hst Hnz. unfold rs_range_length, SV.Core.Values.range_len. cbv beta zeta.
+  cbn [f_start f_stop f_step]. unfold m_get, rs_neb, rs_eqb, rseq_Z, rseq_bool, m_unsigned_abs.
+  normZ. rewrite !cast_i64_small by (unfold i32b; lia).
+  destruct (Z.eqb_spec lo hi) as [->|Hne].
+  - rewrite !Z.ltb_irrefl. destruct (0 <? st); reflexivity.
+  - destruct (Z.ltb_spec 0 st) as [Hp|Hp].
+    + destruct (Z.leb_spec lo hi) as [H1|H1]; cbn [Bool.eqb negb].
+      * destruct (Z.ltb_spec lo hi); [|lia]. destruct (Z.leb_spec 0 st); [|lia]. cbv beta iota.
+        unfold rs_sub, rs_add, rs_div, m_into. rewrite !cast_u64_small by lia.
+        normZ. rewrite (range_len_core (hi - lo) st) by lia. reflexivity.
+      * destruct (Z.ltb_spec lo hi); [lia|]. reflexivity.
+    + destruct (Z.leb_spec lo hi) as [H1|H1]; cbn [Bool.eqb negb].
+      * destruct (Z.ltb_spec hi lo); [lia|]. reflexivity.
+      * destruct (Z.ltb_spec hi lo); [|lia]. destruct (Z.leb_spec 0 st); [lia|]. cbv beta iota.
+        unfold rs_sub, rs_add, rs_div, m_into. rewrite !cast_u64_small by lia. rewrite Z.abs_neq by lia.
+        normZ. rewrite (range_len_core (lo - hi) (- st)) by lia.
+        replace (lo - hi + - st - 1) with (lo - hi - st - 1) by lia. reflexivity.
+Qed.
+
+Theorem rs_range_to_bool_eq lo hi st :
+  st <> 0 -> rs_range_to_bool {| f_start := lo; f_stop := hi; f_step := st |} = (0 <? SV.Core.Values.range_len lo hi st).
+Proof.
+  intros Hnz. unfold rs_range_to_bool, SV.Core.Values.range_len, m_get. cbn [f_start f_stop f_step].
+  normZ.
+  destruct (Z.ltb_spec 0 st), (Z.ltb_spec st 0), (Z.ltb_spec lo hi), (Z.ltb_spec hi lo); try lia;
+    cbn [andb orb]; try reflexivity; symmetry; apply Z.ltb_lt; apply Z.div_str_pos; lia.
+Qed.
+
+(* `x in range(..)`: for an i32 candidate, exactly the members start + k*step, 0 <= k < len *)
+Theorem rs_range_is_in_spec lo hi st x :
+  i32b lo -> i32b hi -> i32b st -> st <> 0 -> wf (Small x) ->
+  rs_range_is_in {| f_start := lo; f_stop := hi; f_step := st |} (VInt (Small x)) =
+  ROk (if 0 <? st then (lo <=? x) && (x <? hi) && ((x - lo) mod st =? 0)
+       else (hi <? x) && (x <=? lo) && ((lo - x) mod (- st) =? 0)).
+Proof.
+  unfold i32b. intros Hlo Hhi Hst Hnz Wx. pose proof (wf_small_i32 x Wx) as Hx. unfold i32_MIN, i32_MAX in Hx.
+  unfold rs_range_is_in. cbv beta zeta. cbn [m_unpack_num StarlarkIntRef_unpack m_and_then m_as_int unpack_i32].
+  unfold rs_range_to_bool, rs_not, m_get, rs_eqb, rseq_Z, m_unsigned_abs, m_is_multiple_of, rs_sub.
+  cbn [f_start f_stop f_step]. normZ. rewrite !cast_i64_small by (unfold i32b; lia).
+  destruct (Z.ltb_spec 0 st) as [Hp|Hp].
+  - destruct (Z.ltb_spec st 0); [lia|]. rewrite andb_false_r, orb_false_r, andb_true_r.
+    destruct (Z.ltb_spec lo hi) as [H1|H1]; cbn [negb].
+    + destruct (Z.eqb_spec lo x) as [->|Hne].
+      * destruct (Z.leb_spec x x); [|lia]. destruct (Z.ltb_spec x hi); [|lia].
+        replace (x - x) with 0 by lia. rewrite Z.mod_0_l by lia. reflexivity.
+      * destruct (Z.ltb_spec x lo); destruct (Z.leb_spec hi x); destruct (Z.leb_spec lo x); destruct (Z.ltb_spec x hi);
+          try lia; cbn [orb andb]; try reflexivity.
+        rewrite !cast_u64_small by lia. destruct (Z.eqb_spec st 0); [lia|]. reflexivity.
+    + destruct (Z.leb_spec lo x); destruct (Z.ltb_spec x hi); try lia; reflexivity.
+  - destruct (Z.ltb_spec st 0); [|lia]. rewrite andb_false_r, andb_true_r. cbn [orb].
+    destruct (Z.ltb_spec hi lo) as [H1|H1]; cbn [negb].
+    + destruct (Z.eqb_spec lo x) as [->|Hne].
+      * destruct (Z.ltb_spec hi x); [|lia]. destruct (Z.leb_spec x x); [|lia].
+        replace (x - x) with 0 by lia. rewrite Z.mod_0_l by lia. reflexivity.
+      * destruct (Z.ltb_spec lo x); destruct (Z.leb_spec x hi); destruct (Z.ltb_spec hi x); destruct (Z.leb_spec x lo);
+          try lia; cbn [orb andb]; try reflexivity.
+        rewrite !cast_u64_small by lia. rewrite Z.abs_neq by lia. destruct (Z.eqb_spec (- st) 0); [lia|]. reflexivity.
+    + destruct (Z.ltb_spec hi x); destruct (Z.leb_spec x lo); try lia; reflexivity.
+Qed.
 
 (* ---- the property statements of C10, about the functions as translated from the source ---------- *)
 Theorem source_floor_div_exact a b : wf a -> wf b -> div_post (den a) (den b) (to_res (rs_floor_div a b)).
